@@ -532,7 +532,10 @@ class MixedLogReader(object):
                 if len(unavailable_source_ids) > 0:
                     self.logger.debug('Not all source IDs requested are available. Cannot extract the following '
                                       'source IDs: {}'.format(unavailable_source_ids))
-                source_ids = list(source_ids.intersection(self.available_source_ids))
+                # Note: available_source_ids is only sampled from the first few messages of each type, so a requested ID
+                # that was not seen there may still appear later in the log. Keep every requested ID: one that really is
+                # absent simply matches nothing.
+                source_ids = list(source_ids)
                 if len(source_ids) == 0:
                     self.logger.debug('Requested source IDs unavailable. Cannot extract data.')
                     self.filter_in_place(None, clear_existing='source_id')
